@@ -175,6 +175,11 @@ def run(ctx: lib.Ctx) -> None:
         cases.append((coq_case(n, script), coq_obs(obs)))
         meta.append((n, script, obs))
 
+    # witnesses of repaired defects (findings/C28.json "fixed")
+    for fx in ctx.known.get('fixed', []):
+        w = fx['witness']
+        add(w['nodes'], w['script'], run_impl(w['nodes'], w['script'], ctx.rng, node_mod), 'fixed-witness')
+        ctx.corpus_cases += 1
     for n, script in scripts(ctx):
         obs = run_impl(n, script, ctx.rng, node_mod)
         add(n, script, obs, f'n{n}:len{len(script)}')
